@@ -383,3 +383,112 @@ def r11d(model: Model, rr: RuleResult):
         rr.ok("set mismatch raises before setGlyphOrder")
     else:
         rr.bad(fi, fi.node, "no set-equality check on the new glyph order guards setGlyphOrder", construct="reorder_glyphs: set check")
+
+
+def _perm_direction(fi, listname: str, order: str):
+    """How `listname` is permuted by the argsort `order` (order[k] = old index of the element that belongs at k):
+    'gather' new[k] = old[order[k]]  |  'scatter' new[order[k]] = old[k]  |  None when the idiom is not recognised."""
+    found = []
+    for st in ast.walk(fi.node):
+        # X[:] = [X[i] for i in order]  /  X[:] = [E[i] for i in order]
+        if isinstance(st, ast.Assign) and isinstance(st.targets[0], ast.Subscript) and norm(st.targets[0].value) == listname and isinstance(st.targets[0].slice, ast.Slice) \
+                and isinstance(st.value, ast.ListComp) and norm(st.value.generators[0].iter) == order and isinstance(st.value.elt, ast.Subscript) \
+                and norm(st.value.elt.slice) == norm(st.value.generators[0].target):
+            found.append("gather")
+        # for a, b in enumerate(order): X[a] = E[b]   (gather)   /   X[b] = E[a]   (scatter)
+        if isinstance(st, ast.For) and isinstance(st.iter, ast.Call) and norm(st.iter.func) == "enumerate" and st.iter.args and norm(st.iter.args[0]) == order \
+                and isinstance(st.target, ast.Tuple) and len(st.target.elts) == 2:
+            k, v = norm(st.target.elts[0]), norm(st.target.elts[1])
+            for b in st.body:
+                if isinstance(b, ast.Assign) and isinstance(b.targets[0], ast.Subscript) and norm(b.targets[0].value) == listname and isinstance(b.value, ast.Subscript):
+                    ti, vi = norm(b.targets[0].slice), norm(b.value.slice)
+                    if (ti, vi) == (k, v):
+                        found.append("gather")
+                    elif (ti, vi) == (v, k):
+                        found.append("scatter")
+    return found
+
+
+@RULES.rule("C11", "R11e", "coverage glyphs and their parallel array are permuted together, in place, on the table's own objects", floor=4)
+def r11e(model: Model, rr: RuleResult):
+    fi = model.func("reorder_glyphs", "_sort_by_gid")
+    cfg = cfg_of(fi)
+    g, pl = fi.params[1], fi.params[2]
+    # idiom A: pair, sort by the glyph's id, unpair
+    srt = [c for c in calls_in(fi) if norm(c.func) == "sorted"]
+    pair = [c for c in srt if c.args and "zip(" in norm(c.args[0]) and g in norm(c.args[0]) and pl in norm(c.args[0])]
+    argsort = [st for st in walk_body(fi) if isinstance(st, ast.Assign) and isinstance(st.value, ast.Call) and norm(st.value.func) == "sorted" and st.value.args
+               and norm(st.value.args[0]).startswith("range(len(")]
+    if pair:
+        key = kwarg(pair[0], "key")
+        k = norm(key) if key is not None else ""
+        if "get_glyph_id" in k and "[0]" in k:
+            rr.ok("glyphs and parallel entries are zipped, sorted by the glyph's id, and unzipped: one permutation for both")
+        else:
+            rr.bad(fi, pair[0], f"paired (glyph, entry) tuples are sorted by {k or 'their natural order'}, not by the glyph's id", construct=f"_sort_by_gid: sort key {k}")
+        unz = [st for st in walk_body(fi) if isinstance(st, ast.Assign) and "zip(*" in norm(st.value)]
+        if unz and isinstance(unz[0].targets[0], ast.Tuple) and len(unz[0].targets[0].elts) == 2:
+            a, b = [norm(x) for x in unz[0].targets[0].elts]
+            sa = [st for st in walk_body(fi) if isinstance(st, ast.Assign) and norm(st.targets[0]) == f"{g}[:]"]
+            sb = [st for st in ast.walk(fi.node) if isinstance(st, ast.Assign) and norm(st.targets[0]) == f"{pl}[:]"]
+            ok = sb and norm(sb[0].value) == b and sa and a in {norm(d.value) if d.value is not None else a for d in cfg.reaching(cfg.node_for(sa[0]), norm(sa[0].value))} | {norm(sa[0].value)}
+            if ok:
+                rr.ok(f"both lists are updated in place ({g}[:] = ..., {pl}[:] = ...) from the same unzipped pairing")
+            else:
+                rr.bad(fi, fi.node, "the unzipped halves are not written back in place to their own lists", construct="_sort_by_gid: write-back")
+        else:
+            raise AnalysisError("_sort_by_gid: unzip step not in the enumerated shape")
+    elif argsort:
+        order = norm(argsort[0].targets[0])
+        dg = _perm_direction(fi, g, order)
+        dp = _perm_direction(fi, pl, order)
+        if not dg or not dp:
+            raise AnalysisError("_sort_by_gid: argsort idiom recognised but how the lists are permuted is not")
+        if set(dg) == set(dp) and len(set(dg)) == 1:
+            if dg[0] == "gather":
+                rr.ok("argsort idiom: glyphs and parallel entries are both gathered by the same index order")
+            else:
+                rr.bad(fi, fi.node, "both lists are scattered by an argsort (inverse permutation): coverage is not in glyph id order", construct="_sort_by_gid: scatter by argsort")
+        else:
+            rr.bad(fi, fi.node, f"glyphs are permuted by {dg} but the parallel array by {dp} (the inverse permutation): for any 3-cycle the coverage-indexed "
+                   f"records are attached to the wrong glyphs", construct=f"_sort_by_gid: glyphs {dg} vs parallel {dp}")
+    else:
+        raise AnalysisError("_sort_by_gid: neither the pair-sort nor the argsort idiom")
+    # the caller passes the table's own list objects (in-place update is what makes the change visible to the font)
+    afi = model.func("reorder_glyphs", "ReorderCoverage.apply")
+    acfg = cfg_of(afi)
+    calls = find_calls(afi, "_sort_by_gid")
+    if len(calls) != 2:
+        raise AnalysisError("ReorderCoverage.apply: expected two _sort_by_gid calls")
+    main = [c for c in calls if norm(c.args[2]) != "None"]
+    if len(main) != 1:
+        raise AnalysisError("ReorderCoverage.apply: parallel-list call not found")
+    c = main[0]
+    if norm(c.args[0]) == "font.getGlyphID" and norm(c.args[1]) == "coverage.glyphs":
+        rr.ok("sorted by the font's (new) glyph ids, on coverage.glyphs itself")
+    else:
+        rr.bad(afi, c, "_sort_by_gid is not applied to coverage.glyphs with font.getGlyphID", construct=short(c))
+    defs = acfg.reaching(acfg.node_for(c), norm(c.args[2]))
+    okd = bool(defs)
+    for d in defs:
+        v = d.value
+        if isinstance(v, ast.Constant) and v.value is None:
+            continue
+        if isinstance(v, ast.Call) and norm(v.func) == "_get_dotted_attr" and [norm(a) for a in v.args] == ["value", "self.parallel_list_attr"]:
+            continue
+        okd = False
+    setters = [x for x in calls_in(afi) if norm(x.func) == "setattr"]
+    if okd and not setters:
+        rr.ok("the parallel list handed to _sort_by_gid is the table's own list object (resolved through the dotted path); it is updated in place")
+    elif setters:
+        rr.bad(afi, setters[0], "the sorted parallel list is written back with setattr(value, <attr>): for dotted paths such as 'MarkArray.MarkRecord' that creates a "
+               "junk attribute and leaves the real nested array in its old order", construct=short(setters[0]))
+    else:
+        rr.bad(afi, c, "a copy of the parallel list is sorted: the table's own array keeps its old order while its coverage is re-sorted",
+               construct=f"_sort_by_gid(..., {short(c.args[2])}) <- {[short(d.value) for d in defs]}")
+    lfi = model.func("reorder_glyphs", "ReorderList.apply")
+    t = " ".join(norm(st) for st in lfi.body)
+    if "lst = _get_dotted_attr(value, self.list_attr)" in t and "lst.sort(key=lambda v: font.getGlyphID(getattr(v, self.key)))" in t:
+        rr.ok("ReorderList sorts the table's own list in place by the key glyph's id")
+    else:
+        rr.bad(lfi, lfi.node, "ReorderList no longer sorts the table's own list in place by glyph id", construct="ReorderList.apply")
